@@ -160,6 +160,10 @@ def gen_cases(rng, tier, scale):
         ('{{#each l as |v|}}{{> p}}{{/each}}', {'p': '[{{v}}{{@index}}{{../x}}{{@root.x}}]'}, {'l': [1], 'x': 'X'}, ('ok', '[X]')),
         ('{{#with o}}{{> p}}{{/with}}', {'p': '[{{a}}{{../a}}]'}, {'a': 'OUT', 'o': {'a': 'IN'}}, ('notin', 'OUT')),
         ('{{> main}}', {}, {}, ('err', 'CannotIncludeSelf', '-')),
+        # a computed name that designates the template being rendered is self-inclusion too
+        ('{{> (lookup this "n")}}', {}, {'n': 'main'}, ('err', 'CannotIncludeSelf', '-')),
+        ('{{> p next="p"}}', {'p': '[{{> (lookup this "next") next="q"}}]', 'q': 'q'}, {}, ('err', 'CannotIncludeSelf', '-')),
+        ('{{> p next="q"}}', {'p': '[{{> (lookup this "next") next="q"}}]', 'q': 'q'}, {}, ('ok', '[q]')),
         # a hash argument bound to a path that designates nothing still overrides the context's field (with null)
         ('{{> p title=nope}}', {'p': '[{{title}}|{{body}}]'}, {'title': 'T', 'body': 'B'}, ('ok', '[|B]')),
         ('{{> p title=nul}}', {'p': '[{{title}}|{{body}}]'}, {'title': 'T', 'body': 'B', 'nul': None}, ('ok', '[|B]')),
